@@ -107,6 +107,9 @@ func EdgeDominates(b *ssa.BasicBlock, succIdx int, target ssa.Instruction) bool 
 func Returns(fn *ssa.Function) []*ssa.Return {
 	var out []*ssa.Return
 	for _, b := range fn.Blocks {
+		if b == fn.Recover {
+			continue // synthetic exit taken after a recovered panic
+		}
 		for _, in := range b.Instrs {
 			if r, ok := in.(*ssa.Return); ok {
 				out = append(out, r)
